@@ -583,6 +583,12 @@ def do_random(cnt, outp, sd, tier):
     for i in range(max(200, cnt // 3)):
         m = boxed_system(rng)
         run_system(out, m, "b", rng, 0.05, 0.05, 1.0, 0.0)
+    # ... and many more of them through branch_and_bound ALONE (a recurring split that matters shows about once in a thousand)
+    for i in range(max(3000, cnt)):
+        m = boxed_system(rng)
+        fr = flip(f_rows(m))
+        v, w, p, err = call_bnb(fr, len(m[0]) - 1, "nz")
+        out.emit("bnb", "int", len(m[0]) - 1, fr, "bb", v, err, w, p)
     out.close()
 
 
